@@ -37,8 +37,9 @@ struct Cfg {
 }
 
 const CMD: &str = "cmd";
-/// argument shapes: byte lengths 1,2,3,6 of an ASCII letter, and one 2-byte, 1-character argument (é)
-const LENS: [usize; 5] = [1, 2, 3, 6, 2];
+/// argument shapes: byte lengths 1,2,3,6 of an ASCII letter, one 2-byte, 1-character argument (é),
+/// and the empty argument (written "" in the input)
+const LENS: [usize; 6] = [1, 2, 3, 6, 2, 0];
 const TERMS: [&str; 3] = [" ", "\n", " \n"];
 
 impl Cfg {
@@ -151,7 +152,11 @@ fn input_of(h: &[Sym]) -> (Vec<u8>, Vec<(Vec<u8>, Term)>) {
     let mut toks = vec![];
     for (i, (li, ti)) in h.iter().enumerate() {
         let arg: Vec<u8> = if *li == 4 { "\u{e9}".as_bytes().to_vec() } else { vec![b'a' + (i % 26) as u8; LENS[*li as usize]] };
-        bytes.extend_from_slice(&arg);
+        if *li == 5 {
+            bytes.extend_from_slice(b"\"\"");
+        } else {
+            bytes.extend_from_slice(&arg);
+        }
         bytes.extend_from_slice(TERMS[*ti as usize].as_bytes());
         // " " continues the line, "\n" ends it, " \n": a line ending in a blank continues
         toks.push((arg, if TERMS[*ti as usize] == "\n" { Term::Hard } else { Term::Soft }));
@@ -160,7 +165,7 @@ fn input_of(h: &[Sym]) -> (Vec<u8>, Vec<(Vec<u8>, Term)>) {
 }
 
 fn hist_str(h: &[Sym]) -> String {
-    h.iter().map(|(l, t)| format!("{}{}", if *l == 4 { "é".to_string() } else { LENS[*l as usize].to_string() }, ["_", "$", "_$"][*t as usize])).collect::<Vec<_>>().join(" ")
+    h.iter().map(|(l, t)| format!("{}{}", if *l == 4 { "é".to_string() } else if *l == 5 { "\"\"".to_string() } else { LENS[*l as usize].to_string() }, ["_", "$", "_$"][*t as usize])).collect::<Vec<_>>().join(" ")
 }
 
 /// Returns (signature, detail) if the run violates the batching property.
@@ -368,8 +373,8 @@ fn spec(t: Tier) -> Spec {
     Spec {
         id: "C04",
         level: "model_checking",
-        rule: format!("{} configurations (mode in none,-n1,-n2,-n3,-L1,-L2,'-n2 -L1','-L2 -n1' x -s in absent, base+k x -x x -r x initial args); for each an explicit-state BFS over the implementation's own batching state (hook H3 snapshot: every limiter's counters, lengths of the batch under construction, pending flag, sticky result; plus the reader's unconsumed terminator) from the empty history, input symbols = argument in {{1,2,3,6 ASCII bytes, 'é' (2 bytes, 1 character)}} x terminator in {{blank, newline, blank+newline}}; a state seen before is not expanded; every expanded history is run to EOF through the real xargs_main and its invocations (hook H2) compared with the reference greedy batcher (lossless, in order, command+initial args unchanged, -n/-L/-s respected simultaneously, maximal, empty-input rule, fatal overflow rule); configurations whose state space is finite are explored to closure, the unbounded ones (no -s and no -n) to depth {}; plain enumeration without hashing to depth {} cross-checks the canonicalisation; binary slice: all histories <= {} for 8 configurations through the xargs binary and a recorder child", configs(t).len(), t.pick(3, 4), t.pick(2, 3), t.pick(2, 3)),
-        bound: json!({"configs": configs(t).len(), "symbols": 15, "closure_depth_cap": 12, "unbounded_depth": t.pick(3, 4)}),
+        rule: format!("{} configurations (mode in none,-n1,-n2,-n3,-L1,-L2,'-n2 -L1','-L2 -n1' x -s in absent, base+k x -x x -r x initial args); for each an explicit-state BFS over the implementation's own batching state (hook H3 snapshot: every limiter's counters, lengths of the batch under construction, pending flag, sticky result; plus the reader's unconsumed terminator) from the empty history, input symbols = argument in {{1,2,3,6 ASCII bytes, 'é' (2 bytes, 1 character), the empty argument written \"\"}} x terminator in {{blank, newline, blank+newline}}; a state seen before is not expanded; every expanded history is run to EOF through the real xargs_main and its invocations (hook H2) compared with the reference greedy batcher (lossless, in order, command+initial args unchanged, -n/-L/-s respected simultaneously, maximal, empty-input rule, fatal overflow rule); configurations whose state space is finite are explored to closure, the unbounded ones (no -s and no -n) to depth {}; plain enumeration without hashing to depth {} cross-checks the canonicalisation; binary slice: all histories <= {} for 8 configurations through the xargs binary and a recorder child", configs(t).len(), t.pick(3, 4), t.pick(2, 3), t.pick(2, 3)),
+        bound: json!({"configs": configs(t).len(), "symbols": 18, "closure_depth_cap": 12, "unbounded_depth": t.pick(3, 4)}),
         assumptions: vec![
             "when -n and -L are both given the one given last decides (they are mutually exclusive)".into(),
             "on a fatal overflow either 'pending batch run first' or 'stop at once' is accepted".into(),
